@@ -511,3 +511,88 @@ Proof.
   pose proof (reachable_now_le_clock cfg c0 evs) as N. fold st in N, B. unfold now_le_clock in N.
   rewrite enter_now in *. split; [exact A|]. split; lia.
 Qed.
+
+From VF Require Import Nfs41.Proofs2Monitor.
+
+(* ---- the same, on the dump the monitor sees ---------------------------------- *)
+Lemma find_dclient_none : forall id st, find_dclient id (dump_of st) = None -> cfind id st = None.
+Proof.
+  intros id st H. destruct (cfind id st) as [c|] eqn:Hc; [exfalso|reflexivity].
+  assert (Hid : c_id c = id) by (eapply cfind_id; exact Hc).
+  assert (Hin : In c (st_clients st)).
+  { unfold cfind in Hc. rewrite find_client_k in Hc. apply kfind_some in Hc. tauto. }
+  revert H. unfold find_dclient. apply find_some_iff. exists (dump_client c). split.
+  - cbn [d_clients dump_of]. apply sort_in. apply in_map. exact Hin.
+  - cbn [dc_id dump_client]. apply N.eqb_eq. exact Hid.
+Qed.
+
+(* Over all histories, in the monitor's own terms (membership in the dump,
+   injected clock): a client record of the dump of a reachable state that is
+   absent from the dump after enter() was not held and lastSeen + lease lies
+   before the clock reading. *)
+Lemma dump_expiry_before_clock : forall cfg c0 evs dc,
+  let st := fst (run (init cfg c0) evs) in
+  In dc (d_clients (dump_of st)) ->
+  find_dclient (dc_id dc) (dump_of (fst (enter st))) = None ->
+  dc_hold dc = 0%Z /\ dc_seen dc + cf_lease (st_cfg st) < st_clock st.
+Proof.
+  intros cfg c0 evs dc st Hin Hgone. cbn [d_clients dump_of] in Hin. apply sort_in in Hin.
+  apply in_map_iff in Hin. destruct Hin as [c [Hdc Hc]]. subst dc.
+  pose proof (reachable_idle_inv cfg c0 evs) as [_ [_ Hnd]]. fold st in Hnd.
+  assert (Hf : cfind (c_id c) st = Some c).
+  { unfold cfind. rewrite find_client_k. apply kfind_in_nodup; assumption. }
+  apply find_dclient_none in Hgone. cbn [dc_id dump_client] in Hgone.
+  destruct (reachable_expiry_before_clock cfg c0 evs (c_id c) c Hf Hgone) as [A [B _]].
+  cbn [dc_hold dc_seen dump_client]. rewrite A. cbn. split; [reflexivity|exact B].
+Qed.
+
+Lemma find_dclient_some : forall id st c, cfind id st = Some c -> find_dclient id (dump_of st) <> None.
+Proof.
+  intros id st c Hc H. apply find_dclient_none in H. congruence.
+Qed.
+
+(* ... and the client of a compound in flight is still in the dump after
+   enter(): nothing the monitor would report as expired during I/O. *)
+Lemma dump_inflight_client_survives : forall cfg c0 evs t,
+  let st := fst (run (init cfg c0) evs) in
+  In t (st_threads st) -> find_dclient (t_client t) (dump_of (fst (enter st))) <> None.
+Proof.
+  intros cfg c0 evs t st Ht. destruct (inflight_compound_pins_client cfg c0 evs t Ht) as [c [_ [_ K]]].
+  eapply find_dclient_some. exact K.
+Qed.
+
+
+(* Soundness of the rule for lease expiry, under the simulation relation
+   between the monitor's bookkeeping and a reachable model state:
+     the clocks agree; every idle client was last heard of no later than its
+     lastSeen; every compound the monitor believes in flight is in flight.
+   Then a step that removes no client beyond what enter() expires (any
+   request that does not itself destroy / replace a client, e.g. SEQUENCE,
+   BIND_CONN_TO_SESSION, a clock advance) is accepted by [lease_check]. *)
+Lemma lease_check_sound_for_expiry : forall cfg c0 evs L s st',
+  let st := fst (run (init cfg c0) evs) in
+  lm_clock L = st_clock st ->
+  (forall c, In c (st_clients st) -> c_hold c = 0 -> exists t, heard_of L (c_id c) = Some t /\ t <= c_seen c) ->
+  (forall f, In f (lm_fly L) -> exists t, In t (st_threads st) /\ t_client t = ly_client f) ->
+  (forall id, cfind id (fst (enter st)) <> None -> cfind id st' <> None) ->
+  hs_dump s = dump_of st' ->
+  lease_check (cf_lease (st_cfg st)) L (dump_of st) s = ""%string.
+Proof.
+  intros cfg c0 evs L s st' st Hclk Hheard Hfly Hkeep Hd. unfold lease_check. apply all_ok_ok. intros dc Hin.
+  destruct (find_dclient (dc_id dc) (hs_dump s)) eqn:E; [reflexivity|]. rewrite Hd in E.
+  cbn [d_clients dump_of] in Hin. apply sort_in in Hin. apply in_map_iff in Hin. destruct Hin as [c [Hdc Hc]]. subst dc.
+  cbn [dc_id dc_owner dump_client] in *. apply find_dclient_none in E.
+  pose proof (reachable_idle_inv cfg c0 evs) as [_ [_ Hnd]]. fold st in Hnd.
+  assert (Hf : cfind (c_id c) st = Some c) by (unfold cfind; rewrite find_client_k; apply kfind_in_nodup; assumption).
+  assert (Hgone : cfind (c_id c) (fst (enter st)) = None).
+  { destruct (cfind (c_id c) (fst (enter st))) eqn:G; [|reflexivity]. exfalso. apply (Hkeep (c_id c)); [congruence|exact E]. }
+  destruct (reachable_expiry_before_clock cfg c0 evs (c_id c) c Hf Hgone) as [A [B _]]. fold st in B.
+  destruct (in_flight_of L (c_id c)) eqn:Efl.
+  - exfalso. unfold in_flight_of in Efl. apply existsb_exists in Efl. destruct Efl as [f [Hfin Hfc]]. apply N.eqb_eq in Hfc.
+    destruct (Hfly f Hfin) as [t [Ht Htc]].
+    destruct (inflight_compound_pins_client cfg c0 evs t Ht) as [c1 [_ [_ K]]]. fold st in K. rewrite Htc, Hfc in K. congruence.
+  - destruct (mentions_client _ _ _ _); [reflexivity|].
+    destruct (Hheard c Hc A) as [t [Ht Hle]]. rewrite Ht. unfold check.
+    destruct (t + cf_lease (st_cfg st) <? clock_after L (hs_op s)) eqn:Ecmp; [reflexivity|exfalso].
+    apply N.ltb_ge in Ecmp. unfold clock_after in Ecmp. destruct (hs_op s); lia.
+Qed.
